@@ -189,8 +189,10 @@ fn make_case(seed: u64, idx: usize, orphan_leg: bool, background_leg: bool, thor
         StratKind::Ab,
     ];
     let caps = [1usize, 2, 16];
-    let hots = [(1usize, 1usize), (1, 2), (2, 3), (4, 8), (1000, 2000)];
-    let (hot_soft, hot_hard) = hots[(idx / 3 + rng.usize_below(5)) % hots.len()];
+    // (soft drain threshold, hard limit); the last three have the hard limit BELOW the soft
+    // threshold, where only the emergency drain keeps the tier bounded
+    let hots = [(1usize, 1usize), (1, 2), (2, 3), (4, 8), (1000, 2000), (10_000, 2), (8, 3), (1000, 1)];
+    let (hot_soft, hot_hard) = hots[(idx / 3 + rng.usize_below(8)) % hots.len()];
     Case {
         idx,
         strat: strats[idx % strats.len()],
